@@ -123,7 +123,13 @@ func execHTTP(f []string) string {
 
 	router := &fakeRouter{conn: &fakeConn{s: sc}, route: newRoute(cs, ss, "*", rbpPath(rbp))}
 	bridge := webbridge.NewTranscodedHTTPBridge(router, webbridge.TranscodedHTTPBridgeOpts{Transcoder: newTranscoder()})
-	srv := httptest.NewServer(bridge)
+	// event trace of the response loop: R<i> = the target handed out response i, W<n> = one Write of n bytes on the
+	// ResponseWriter the bridge was given, F = one Flush on it (recorded in the order the real code performs them)
+	tr := &traceLog{}
+	sc.trace = tr
+	srv := httptest.NewServer(http.HandlerFunc(func(w http.ResponseWriter, r *http.Request) {
+		bridge.ServeHTTP(&recWriter{ResponseWriter: w, tr: tr}, r)
+	}))
 	defer srv.Close()
 
 	var body []byte
@@ -166,11 +172,13 @@ func execHTTP(f []string) string {
 	var lines lineSplitter
 	var sse sseParser
 	var raw []byte
+	var chunks []string // sizes of the chunks the network handed to the client, in order
 	buf := make([]byte, 4096)
 	for {
 		n, rerr := resp.Body.Read(buf)
 		if n > 0 {
 			raw = append(raw, buf[:n]...)
+			chunks = append(chunks, strconv.Itoa(n))
 			mu.Lock()
 			if isSSEResp {
 				sse.feed(buf[:n])
@@ -212,7 +220,47 @@ func execHTTP(f []string) string {
 	}
 	sc.mu.Unlock()
 
-	return fmt.Sprintf("%d %s %s %s %s %s", resp.StatusCode, respCT, common.Hex(raw), joinList(jsonPayloads(rbp, msgs)), joinList(recs), flush)
+	return fmt.Sprintf("%d %s %s %s %s %s %s %s", resp.StatusCode, respCT, common.Hex(raw), joinList(jsonPayloads(rbp, msgs)), joinList(recs), flush,
+		joinList(tr.snapshot()), joinList(chunks))
+}
+
+// traceLog is the shared, ordered event log of one HTTP case.
+type traceLog struct {
+	mu  sync.Mutex
+	evs []string
+}
+
+func (t *traceLog) add(e string) {
+	if t == nil {
+		return
+	}
+	t.mu.Lock()
+	t.evs = append(t.evs, e)
+	t.mu.Unlock()
+}
+
+func (t *traceLog) snapshot() []string {
+	t.mu.Lock()
+	defer t.mu.Unlock()
+	return append([]string(nil), t.evs...)
+}
+
+// recWriter is the http.ResponseWriter handed to the bridge: it records every Write and Flush before passing it on.
+type recWriter struct {
+	http.ResponseWriter
+	tr *traceLog
+}
+
+func (w *recWriter) Write(b []byte) (int, error) {
+	w.tr.add("W" + strconv.Itoa(len(b)))
+	return w.ResponseWriter.Write(b)
+}
+
+func (w *recWriter) Flush() {
+	w.tr.add("F")
+	if f, ok := w.ResponseWriter.(http.Flusher); ok {
+		f.Flush()
+	}
 }
 
 // ---- ws -----------------------------------------------------------------------------------------
